@@ -11,7 +11,8 @@ import tempfile
 
 from harness import core, sexp
 
-NAMES = ['a.txt', 'b', 'sub', 'x y.html', 'é.bin', 'empty', '..hidden', 'c.d.e', 'deep']
+NAMES = ['a.txt', 'b', 'sub', 'x y.html', 'é.bin', 'empty', '..hidden', 'c.d.e', 'deep',
+         'cafe\u0301.txt', '\u212bngstrom']      # names that are not in Unicode normal form C (combining accent, ANGSTROM SIGN)
 FAULTS = [None, None, None, 'mtime1', 'open', 'mtime2', 'size', 'peek', 'vanish']
 ERRNOS = ['ENOENT', 'EACCES', 'EIO', 'EISDIR']
 
@@ -161,6 +162,21 @@ def impl(case):
                 if not rel.startswith('..') and not rel.startswith('/') and os.path.isfile(cand):
                     target = cand
                     break
+            if rq.get('override') and target and len(out['roots']) > 1 and not target.startswith(out['roots'][0] + os.sep):
+                # the deployment changes between two requests: an earlier search directory now has its own copy of the path
+                # (it was served from a later directory before); first directory wins from now on
+                newp = os.path.join(out['roots'][0], rel)
+                try:
+                    os.makedirs(os.path.dirname(newp), exist_ok=True)
+                    data = b'OVERRIDE ' + files[target]
+                    with open(newp, 'wb') as f:
+                        f.write(data)
+                    mt0 = os.path.getmtime(target)
+                    os.utime(newp, (mt0, mt0))
+                    files[newp] = data
+                    target = newp
+                except OSError:
+                    pass                  # a file is in the way of the directory: nothing changes
             if rq['ims'] is not None:
                 mt = int(os.path.getmtime(target)) if target else 1500000000
                 headers['If-Modified-Since'] = http_date(mt + {'before': -100, 'at': 0, 'after': 100}[rq['ims']])
@@ -178,7 +194,7 @@ def impl(case):
                    'served': next((f for f, d in list(files.items()) + list(secrets.items())
                                    if d == body and len(d) > 0), None) if r.code == 200 else None,
                    'secret_leak': any(d in body for d in secrets.values()),
-                   'mtime_cmp': None, 'has_ext_type': None}
+                   'mtime_cmp': None, 'has_ext_type': None, 'files_now': sorted(list(files) + list(secrets))}
             if target:
                 rec['target'] = target
                 rec['target_mtime_http'] = http_date(int(os.path.getmtime(target)))
@@ -248,7 +264,7 @@ def model_lines(case, obs):
             f = rq['fault'] if gi == 0 else None
             m1 = 'None' if f == 'mtime1' else [bool(o['mtime_cmp'])] if o['mtime_cmp'] is not None else [False]
             ans = [m1, f != 'vanish', f != 'open', f != 'mtime2', f != 'size', bool(o['has_ext_type']), f != 'peek']
-            lines.append('staticlab ' + sexp.dumps([[r.encode('utf8') for r in g], [x.encode('utf8') for x in obs['files']],
+            lines.append('staticlab ' + sexp.dumps([[r.encode('utf8') for r in g], [x.encode('utf8') for x in o.get('files_now', obs['files'])],
                                                     fa.encode('utf8'), cond, ans]))
             keys.append((k, gi))
     return lines, keys
@@ -317,6 +333,11 @@ def gen_case(rng, tier):
     for rel in rels:
         reqs.append({'path': '/' + rel, 'ims': None, 'fault': None, 'errno': 'EIO'})
         reqs.append({'path': '/' + rel, 'ims': 'at', 'fault': None, 'errno': 'EIO'})
+    # history: every file once more after an earlier search directory got its own copy of it
+    for rel in rels:
+        if rng.random() < 0.5:
+            reqs.append({'path': '/' + rel, 'ims': None, 'fault': None, 'errno': 'EIO', 'override': True})
+            reqs.append({'path': '/' + rel, 'ims': 'at', 'fault': None, 'errno': 'EIO'})
     tree['mtime_base'] = rng.choice([1500000000, 1500000000, 4102444800])
     return {'tree': tree, 'mount': mount, 'requests': reqs}
 
